@@ -27,6 +27,29 @@ def RV(x):
     if isinstance(x, float): return z3.RealVal(str(Fraction(x)))
     return z3.RealVal(x)
 
+def simplest_rational(f):
+    """[REAL] reading of a floating-point literal: a literal such as 1/real(3) is folded by the compiler to the nearest double;
+    its source meaning is the simplest rational in the literal's rounding interval.  Dyadic values with small denominators
+    are kept as they are; a non-dyadic reading is accepted only if its denominator is below 2^26."""
+    import math
+    x = Fraction(f)
+    if x.denominator <= (1 << 20): return x
+    m, e = math.frexp(f); ulp = Fraction(2) ** (e - 53)
+    lo, hi = x - ulp / 2, x + ulp / 2
+    if lo > hi: lo, hi = hi, lo
+    neg = hi < 0
+    if neg: lo, hi = -hi, -lo
+    # simplest fraction in [lo, hi] by continued fractions
+    def simplest(lo, hi):
+        fl = lo.numerator // lo.denominator
+        if fl + 1 <= hi or lo == fl: return Fraction(fl if lo == fl else fl + 1)
+        r = simplest(1 / (hi - fl), 1 / (lo - fl))
+        return fl + 1 / r
+    try: r = simplest(lo, hi)
+    except RecursionError: return x
+    if r.denominator >= (1 << 26): return x
+    return -r if neg else r
+
 def is_sym(x): return isinstance(x, z3.ExprRef)
 def is_conc_real(x): return z3.is_rational_value(x)
 def frac(x):
@@ -35,16 +58,23 @@ def frac(x):
 def rsimp(x):
     return x
 
+def _isp(x): return getattr(x, '_vf_poly', False)
 def rmul(a, b):
+    if _isp(a) or _isp(b): return a * b if _isp(a) else b * a
     if is_conc_real(a) and is_conc_real(b): return RV(frac(a) * frac(b))
     return a * b
 def radd(a, b):
+    if _isp(a) or _isp(b): return a + b if _isp(a) else b + a
     if is_conc_real(a) and is_conc_real(b): return RV(frac(a) + frac(b))
     return a + b
 def rsub(a, b):
+    if _isp(a) or _isp(b): return a - b if _isp(a) else (-b) + a
     if is_conc_real(a) and is_conc_real(b): return RV(frac(a) - frac(b))
     return a - b
 def rdiv(a, b):
+    if _isp(a) or _isp(b):
+        if _isp(b): raise Unsupported('division by polynomial')
+        return a / b
     if is_conc_real(b):
         fb = frac(b)
         if fb == 0: raise Unsupported('division by literal zero')
@@ -63,7 +93,7 @@ class Exec:
         s.base_assume = list(assume or [])
         s.timeout_ms = timeout_ms
         s.uf = {}; s.axioms = []; s.fresh = 0
-        s.libm_extra = libm or {}
+        s.libm_extra = libm or {}; s.rationalize = True
         s.stats = {'paths': 0, 'steps': 0, 'feas_queries': 0}
         s.objsize = {}
         s.ginit_cache = None
@@ -112,7 +142,7 @@ class Exec:
         if k == 'flt':
             f = v.f
             if f != f or f in (float('inf'), float('-inf')): return ('nonfinite', f)
-            return RV(Fraction(f))
+            return RV(simplest_rational(f) if s.rationalize else Fraction(f))
         if k == 'zero':
             rt = resolve(v.ty, s.m)
             if isinstance(rt, FltT): return RV(0)
@@ -237,6 +267,7 @@ class Exec:
                 elif op == 'fneg':
                     a = s.val(env, I.a)
                     if isinstance(a, tuple): env[I.dest] = ('nonfinite', -a[1])
+                    elif _isp(a): env[I.dest] = -a
                     else: env[I.dest] = RV(-frac(a)) if is_conc_real(a) else -a
                 elif op in BINOPS:
                     env[I.dest] = s.intop(I, s.val(env, I.a), s.val(env, I.b))
